@@ -84,7 +84,7 @@ def panic_sig(rr, i):
         wid = t[1]
         for o in rr.prog.ops[:i]:
             ot = o.split(" ")
-            if ot[0] == "wopen" and ot[3] == wid:
+            if ot[0] in ("wopen", "wcreate") and ot[3] == wid:
                 sig["api"] = ot[1]
                 sig["keyed"] = ot[4] != "-"
                 for x in ot[5:]:
@@ -110,6 +110,10 @@ def w_stream(ids, fl, key, data, chunks, algo=None, size=None, sri=None, time=No
     w = ids.new("W")
     k = hx(key) if key is not None else "-"
     ops = [f"wopen {fl} c0 {w} {k} " + opts_tokens(algo, size, sri, time, meta, raw)]
+    if key is not None and size is None and sri is None and time is None and raw is None and meta is NOMETA \
+            and (len(key) + len(data)) % 3 == 0:
+        # nothing declared but (perhaps) the algorithm: every third such writer is made by the constructors
+        ops = [f"wcreate {fl} c0 {w} {k} {algo or '-'}"]
     for c in chunks:
         ops.append(f"wwrite {w} {hx(c)}")
     if commit:
@@ -460,7 +464,7 @@ def gen_roundtrip_programs(r, n, big=0.03):
             if r.chance(0.2) and len(expect) == 1:
                 ops.append(f"clear {r.pick('sa')} c0" if key is None or r.chance(0.6) else f"remove_fully {r.pick('sa')} c0 {hx(key)}")
                 again = lambda wid: "W" + str(900 + int(wid[1:]))
-                w2 = [(" ".join(t[:3] + [again(t[3])] + t[4:]) if t[0] == "wopen" else
+                w2 = [(" ".join(t[:3] + [again(t[3])] + t[4:]) if t[0] in ("wopen", "wcreate") else
                        " ".join([t[0], again(t[1])] + t[2:]) if t[0] in ("wwrite", "wcommit") else o)
                       for o in w for t in [o.split(" ")]]
                 ops += w2
@@ -622,7 +626,7 @@ def writer_sig(rr, idx):
     chunks = []
     for o in rr.prog.ops[:idx]:
         ot = o.split(" ")
-        if ot[0] == "wopen" and ot[3] == wid:
+        if ot[0] in ("wopen", "wcreate") and ot[3] == wid:
             sig["api"] = ot[1]
             sig["keyed"] = ot[4] != "-"
             for x in ot[5:]:
@@ -2172,7 +2176,7 @@ def mon_confine(rr):
 # ---------------------------------------------------------------------------------------------
 
 SYNC_ONLY = ("hard_link_unchecked", "hard_link_hash", "hard_link_hash_unchecked", "reflink_hash_unchecked")
-HAS_FLAVOUR = ("write", "write_hash", "wopen", "read", "read_hash", "ropen", "ropen_hash", "copy", "copy_unchecked",
+HAS_FLAVOUR = ("write", "write_hash", "wopen", "wcreate", "read", "read_hash", "ropen", "ropen_hash", "copy", "copy_unchecked",
                "copy_hash", "copy_hash_unchecked", "hard_link", "reflink", "reflink_unchecked", "reflink_hash", "metadata",
                "exists", "remove", "remove_hash", "remove_fully", "clear", "index_insert", "index_find", "index_delete",
                "link_to", "link_to_hash", "lopen", "lopen_auto")
